@@ -211,6 +211,22 @@ fn gen_c20(tier: &str, rng: &mut Rng, emit: &mut dyn FnMut(Op)) {
         let refs: Vec<&str> = args.iter().map(|s| s.as_str()).collect();
         emit(Op::s("metadata.read", &refs));
     }
+    // metadata files larger than one 8 KiB read buffer, a multi-byte character across 8192 / 16384
+    for cut in [8192usize, 16384, 8191] {
+        for lead in [0usize, 1, 2] {
+            let mut content: Vec<u8> = vec![b'a'; cut - 1 - lead];
+            content.extend("é€\u{1F496}é".as_bytes());
+            content.extend(vec![b'z'; 200]);
+            let mut a = b"dbig-1.0".to_vec();
+            for f in ["+COMMENT", "+CONTENTS", "+DESC"] {
+                a.push(0);
+                a.extend(f.as_bytes());
+                a.push(0);
+                if f == "+COMMENT" { a.extend(&content); } else { a.extend(b"x"); }
+            }
+            emit(Op::new("pkgdb.iter", &[&a]));
+        }
+    }
     // directory trees
     let names: [&[u8]; 18] = [b"foo-1.0", b"bar-2.0nb3", b"py312-baz-0.1", b"a-b-c-1", b"nodash", b"-", b"x-", b"-1",
         b"caf\xc3\xa9-1.0", b"bad\xff-1", b"+COMMENT", b"foo-1.0nb1",
